@@ -35,12 +35,16 @@ func c13Rules(c *Ctx, shared string) {
 	c.rule("should-recurse-table", "(shared with C10) the manglers used in decoder chains recurse into nested structs unconditionally (ShouldRecurse is the constant true): a set / duration / tagged field inside a struct that is a slice element is translated like a top-level one", 4)
 	c.rule("nonnil-preserved", "containers rebuilt when reversing the Duration substitution / set-to-slice manglers are make-built: an explicitly empty list or set in a document does not come back as unset; shared with C10", 3)
 	c.rule("recursion-excludes-textm", "(shared with C10) the recursion every decoder chain relies on treats a text-unmarshalable field as a leaf: the field type itself and, after stripping the outer pointer / slice / array, the type a nested Transformer is created for are both tested (T and *T) not to implement encoding.TextUnmarshaler", 1)
+	c.rule("value-pipeline", "(shared with C20) the transforming decoder (the set-to-slice / alias wrapper around a file decoder) translates the type it is called with, in that call: a Transformer or translated type kept from an earlier call belongs to another config type", 1)
 	_ = shared
 }
 
 // c13Body runs the decoder rules (shared with C18: the ez entry points decode their file with these decoders).
 func c13Body(c *Ctx) {
 	c10RecursionExcludesTextM(c, "recursion-excludes-textm")
+	if dec := c.W.fn("sourcewrap", "transformingDecoder.Decode"); dec != nil {
+		c20Pipeline(c, dec, "("+modPath+".Decoder).Decode", "value-pipeline")
+	}
 	c10NonNil(c)
 	c10ZeroOnlyUnset(c)
 	for _, im := range manglerImpls(c) {
